@@ -92,11 +92,18 @@ enum StrKind { SK_LINKED = 0, SK_CHARPTR, SK_STDSTRING, SK_STRINGVIEW, SK_JSONST
 
 inline bool hasNul(const std::string& s) { return s.find('\0') != std::string::npos; }
 
+enum StrClass { ANY_KIND = 0, COPYING_KIND, LINKED_KIND };
+inline bool isLinkedKind(int kind) { return kind == SK_LINKED || kind == SK_JSONSTRING_LINKED; }
+
 // Calls f(x) with the byte string s presented as one of the string kinds.
 // Mutable sources are scribbled over after the call: a copy must not alias them.
+// cls restricts the choice to the kinds stored by copy / kept by address (model values "s" / "l");
+// a forced kind (C14: every kind in turn) overrides it.
 template <class F>
-auto withString(const std::string& s, Kinds& ks, F&& f) -> decltype(f((const char*)nullptr)) {
+auto withString(const std::string& s, Kinds& ks, F&& f, StrClass cls = ANY_KIND) -> decltype(f((const char*)nullptr)) {
   int kind = ks.fixedString >= 0 ? ks.fixedString : (int)ks.next(SK_COUNT);
+  if (ks.fixedString < 0 && cls == LINKED_KIND && !isLinkedKind(kind)) kind = (kind & 1) ? SK_LINKED : SK_JSONSTRING_LINKED;
+  if (ks.fixedString < 0 && cls == COPYING_KIND && isLinkedKind(kind)) kind = kind == SK_LINKED ? SK_STDSTRING : SK_CHARPTR;
   if (hasNul(s) && !(kind == SK_STDSTRING || kind == SK_STRINGVIEW || kind == SK_JSONSTRING_COPIED))
     kind = SK_STDSTRING;  // zero-terminated kinds cannot carry a NUL
   if (kind == SK_CHARARRAY && s.size() >= 15) kind = SK_CHARPTR;
@@ -186,7 +193,8 @@ bool withScalar(const mj::Value& v, Kinds& ks, F&& f) {
     if ((double)(float)d == d && ks.next(2) == 0) return f((float)d);
     return f(d);
   }
-  if (t == "s") return withString(s, ks, [&](auto&& x) { return f(x); });
+  if (t == "s") return withString(s, ks, [&](auto&& x) { return f(x); }, COPYING_KIND);
+  if (t == "l") return withString(s, ks, [&](auto&& x) { return f(x); }, LINKED_KIND);
   if (t == "r") {
     unsigned k = ks.next(3);
     if (k == 0 && !hasNul(s)) return f(serialized(intern(s)));
